@@ -14,6 +14,7 @@ oracle: independent dense direct-stiffness solve (NumPy, union-find
 """
 import itertools
 from fractions import Fraction as F
+F_ = F
 
 import numpy as np
 
@@ -194,11 +195,64 @@ def run(ctx):
             terms.append("equilb %s %s %s" % (q_lit(TOL), coq_receiver(c, step),
                                               coq_list([coq_list([fq(x) for x in row]) for row in d])))
             info.append((c, step))
+    # ---- the same certificate with finite-element tubes: an elastic tube is an affine spring whose law the
+    # driver measures on a replay; the network solved by the real system solver must be in equilibrium with them
+    from harness.core import run_impl_parallel
+    rcases = []
+    for i in range(ctx.budget(8, 30)):
+        npan = rng.randint(1, 3)
+        ro = rng.choice(OPTS)
+        rc = {"id": i, "times": [0.0, 1.0, 2.0], "ropt": rnd(rng, 500, 50000) if ro == "num" else ro, "panels": [],
+              "E": rng.choice([1.0e5, 1.9e5]), "nu": 0.3, "alpha": rng.choice([1.2e-5, 1.8e-5])}
+        for _ in range(npan):
+            po = rng.choice(OPTS)
+            tubes = []
+            for _ in range(rng.randint(1, 2)):
+                tubes.append({"r": 12.7, "t": rng.choice([1.0, 1.5]), "h": rng.choice([1000.0, 2000.0]), "nr": 3, "nt": 4, "nz": 2,
+                              "dim": rng.choice([1, 1, 2]), "T0": 300.0, "dT": [0.0, rng.uniform(100, 500), rng.uniform(100, 500)],
+                              "pressure": [0.0, rng.uniform(0, 5), rng.uniform(0, 5)]})
+            rc["panels"].append({"popt": rnd(rng, 500, 50000) if po == "num" else po, "tubes": tubes})
+        rcases.append(rc)
+
+    def real_impl(c):
+        def o(v):
+            return v if isinstance(v, str) else hx(v)
+
+        def tb(t):
+            return {k: (hx(v) if isinstance(v, float) else ([hx(x) for x in v] if isinstance(v, list) else v)) for k, v in t.items()}
+        return {"id": c["id"], "times": [hx(t) for t in c["times"]], "ropt": o(c["ropt"]), "E": hx(c["E"]), "nu": hx(c["nu"]), "alpha": hx(c["alpha"]),
+                "panels": [{"popt": o(p["popt"]), "tubes": [tb(t) for t in p["tubes"]]} for p in c["panels"]]}
+    rres = run_impl_parallel("c04_real", [real_impl(c) for c in rcases], workers=8, timeout=1500)
+    for c, r in zip(rcases, rres):
+        ctx.case(("real", c["id"], str(c["ropt"]), str([p["popt"] for p in c["panels"]])), True)
+        ctx.count("real-tube receivers")
+        desc = "finite-element tubes, receiver=%s panels=%s" % (c["ropt"], [p["popt"] for p in c["panels"]])
+        if r["outcome"] != "ok":
+            findings.append((c, "the system solve with finite-element tubes does not complete: %s (%s)" % (r.get("msg"), desc)))
+            continue
+        for step in (1, 2):
+            # the measured affine laws of this step
+            law = {"id": c["id"], "times": c["times"], "ropt": c["ropt"],
+                   "panels": [{"popt": p["popt"], "tubes": [{"kt": float.fromhex(r["kt"][pi][qi][step]),
+                                                             "f0": [0.0, 0.0, 0.0][:step] + [float.fromhex(r["f0"][pi][qi][step])]}
+                                                            for qi in range(len(p["tubes"]))]} for pi, p in enumerate(c["panels"])]}
+            d = [[float.fromhex(t[step]) for t in p] for p in r["d"]]
+            for pi, p in enumerate(law["panels"]):
+                for qi, t in enumerate(p["tubes"]):
+                    F = float.fromhex(r["f"][pi][qi][step])
+                    if abs(F - (t["kt"] * d[pi][qi] + t["f0"][step])) > 1e-7 * (abs(F) + abs(t["f0"][step]) + 1.0):
+                        findings.append((c, "step %d: an elastic finite-element tube is not an affine spring (force %r, law gives %r) (%s)"
+                                         % (step, F, t["kt"] * d[pi][qi] + t["f0"][step], desc)))
+                    if not t["kt"] > 0:
+                        findings.append((c, "step %d: a finite-element tube has stiffness %r (%s)" % (step, t["kt"], desc)))
+            terms.append("equilb %s %s %s" % (q_lit(F_(1, 10 ** 6)), coq_receiver(law, step), coq_list([coq_list([fq(x) for x in row]) for row in d])))
+            info.append((c, step))
     ctx.sample({"example": to_impl(cases[len(cases) // 2])})
     if findings:
         findings.sort(key=lambda f: (len(f[0]["panels"]), sum(len(p["tubes"]) for p in f[0]["panels"])))
         c, msg = findings[0]
-        ctx.violation("%s (%d failing checks)" % (msg, len(findings)), {"case": to_impl(c), "oracle": msg}, tag="C04:" + msg[:30])
+        ctx.violation("%s (%d failing checks)" % (msg, len(findings)), {"case": real_impl(c) if "E" in c else to_impl(c), "oracle": msg},
+                      tag="C04:" + msg[:30])
     failing = coq_eval_cases("c04", HEADER, terms, shard=150)
     ctx.checker_cmds.append("coqc (vm_compute) equilibrium certificate of %d solved steps" % len(terms))
     detail = ""
@@ -210,7 +264,8 @@ def run(ctx):
     if failing and not findings:
         c, step = info[failing[0]]
         ctx.violation("written-back tube displacements are not an equilibrium of the un-reduced network (receiver=%s panels=%s step %d)"
-                      % (c["ropt"], [p["popt"] for p in c["panels"]], step), {"case": to_impl(c), "oracle": "certificate fails"},
+                      % (c["ropt"], [p["popt"] for p in c["panels"]], step),
+                      {"case": real_impl(c) if "E" in c else to_impl(c), "oracle": "certificate fails"},
                       tag="C04:certificate")
 
 
@@ -219,7 +274,7 @@ def replay(rp):
     if not c:
         print("replay file names a broken obligation, not an input: %s" % rp.get("broken"))
         return 1
-    r = run_impl("c04_spring", {"cases": [c]})["results"][0]
+    r = run_impl("c04_real" if "E" in c else "c04_spring", {"cases": [c]})["results"][0]
     print("recorded:", rp.get("oracle"))
     print("observed now:", r)
     return 1
